@@ -95,4 +95,20 @@ theorem d17_model_witness : ∃ sched s, runSched (State.init d17Cfg) sched = so
     simp only [Bool.and_eq_true] at h
     exact ⟨d17Sched, s, hr, h.1.1, h.1.2, h.2⟩
 
+/-- Negation witness of `join_eventually` / "every started call is executed" on the FULL model of the ORIGINAL code
+    (defect D17, dequeued side): after this schedule (268 micro-steps, replayed from a run of the real thread pool) no
+    thread is enabled, a client thread sleeps inside `ThreadPool::run` (its `Future::start` never returns),
+    `_dequeuedSignal` has `_state = 1` with its Signal reset although the queue has a free slot, and a started call has
+    never been executed. -/
+theorem d17_start_never_returns_witness : ∃ sched s, runSched (State.init d17bCfg) sched = some s ∧
+    allBlocked s = true ∧ clientAsleepOnDeq s = true ∧ deqInconsistent s = true ∧ unexecutedCall s = true := by
+  have h := d17b_check
+  unfold d17bCheck at h
+  cases hr : runSched (State.init d17bCfg) d17bSched with
+  | none => rw [hr] at h; exact absurd h (by decide)
+  | some s =>
+    rw [hr] at h
+    simp only [Bool.and_eq_true] at h
+    exact ⟨d17bSched, s, hr, h.1.1.1, h.1.1.2, h.1.2, h.2⟩
+
 end Nstd.Future
